@@ -144,6 +144,7 @@ class Hist:
         self.next_id = 1
         self.hold = {a["id"]: 0 for a in world["addrs"]}
         self.nconn = {a["id"]: 0 for a in world["addrs"]}
+        self.stale = {a["id"]: 0 for a in world["addrs"]}   # idle connections that died with their backend, not yet found out
         self.down = set()      # backends in mode down
         self.validated = set() # pool ids whose validate() ran
         self.fault = False     # a backend fault happened (byte counts are compared as bounds only)
@@ -263,8 +264,9 @@ class Hist:
             pass      # any shard may serve (default_shard random / a sharding key): only asked for when nothing is exhausted, nothing is kept
         elif x["hold"] is None:
             served = a is not None and a["backend"] not in self.down and self.hold[a["id"]] < self.pool(x["pool"])["size"]
-            if a is not None and a["backend"] in self.down and self.nconn[a["id"]] - self.hold[a["id"]] > 0:
-                # a dead idle connection
+            if a is not None and self.stale[a["id"]] > 0:
+                # a dead idle connection is handed out (also after the backend came back)
+                self.stale[a["id"]] -= 1
                 self.nconn[a["id"]] -= 1
                 if not self.w["hc_always"]:
                     x["alive"] = False    # error receiving data from server -> the client is disconnected
@@ -322,8 +324,9 @@ class Hist:
         t = self.tag(c)
         lab = "r%d" % len(self.steps)
         self.steps.append({"op": "send", "c": c, "msgs": [{"t": "Q", "sql": SIMPLE_SQL["slow"] % t}]})
-        self.steps.append({"op": "sleep", "ms": 60})
-        self.sample({"kind": "run_start", "c": c, "tag": t})
+        # listen for 60 ms: an early answer (error reply, closed socket) means the statement is NOT running
+        self.steps.append({"op": "recv", "c": c, "until": "Z", "timeout_ms": 60, "label": lab + "a"})
+        self.sample({"kind": "run_start", "c": c, "tag": t, "rlabel": lab + "a", "rlabel2": lab})
         self.steps.append({"op": "cancel", "c": "cancel", "of": c, "timeout_ms": 400})
         self.sample({"kind": "cancel", "target": c, "how": "valid-running"})
         self.steps.append({"op": "recv", "c": c, "until": "Z", "timeout_ms": 2500, "label": lab})
@@ -379,6 +382,9 @@ class Hist:
             self.down.add(b)
             self.fault = True
             self.steps.append({"op": "sleep", "ms": 40})
+            for a in self.w["addrs"]:
+                if a["backend"] == b:
+                    self.stale[a["id"]] = max(0, self.nconn[a["id"]] - self.hold[a["id"]])
         else:
             self.down.discard(b)
         self.sample({"kind": "backend", "b": b, "mode": mode})
@@ -505,6 +511,7 @@ def random_history(rng, idx, nact):
             x = h.cl[c]
             a = h.addr_of(c) if not x["admin"] else None
             if (not x["admin"] and x["hold"] is None and isinstance(a, dict) and a["backend"] not in h.down and w["mode"] != "session"
+                    and h.stale[a["id"]] == 0
                     and h.hold[a["id"]] < h.pool(x["pool"])["size"] and rng.random() < 0.4):
                 h.nconn[a["id"]] = max(h.nconn[a["id"]], h.hold[a["id"]] + 1)
                 h.run_and_cancel(c)
@@ -681,6 +688,19 @@ def directed_histories(rng):
         h.leave("c1", "close")
         h.leave("c2", "term")
         h.period_end()                      # every client gone: the totals stay
+        out.append(h)
+    # an idle connection that died with its backend is handed out after the backend is back: the client's task ends at
+    # once (no reply ever comes); sampled BEFORE the scripted client notices the closed socket
+    for hc in (False, True):
+        w = make_world("single", rng, limit=None, hc_always=hc, size=1)
+        h = Hist(w, "stale-connection-%s" % ("healthcheck" if hc else "plain"))
+        h.connect("c1", 1)
+        h.request("c1", "select")
+        h.backend("b0", "refuse")
+        h.backend("b0", "normal")
+        h.run_and_cancel("c1")
+        h.connect("c2", 1)
+        h.request("c2", "select")
         out.append(h)
     # CancelRequest connections: pseudo-clients that are never registered and must change nothing — whoever they name
     for kind in ("single", "session"):
@@ -1113,9 +1133,35 @@ class Derive:
         c, cid = entry["c"], self.cid(entry["c"])
         if self.phase.get(c) != "handle" or c in self.held:
             return
+        ev = self.recv_by_label.get(entry["rlabel"])
+        if ev is not None and not (ev.get("outcome") == "timeout" and not ev["frames"]):
+            # answered (or disconnected) within the 60 ms: an ordinary request that is over already
+            self.k_req(dict(entry, kind="req", proto="Q", what="slow", shard=None), ops, drops)
+            self.done_req.add(entry["rlabel2"])
+            return
         s = self.find_server(entry["tag"])
         if s is None:
-            self.notes.append("statement %s did not reach a backend" % entry["tag"])
+            # the statement did not reach a backend.  What became of the client is read off its task: if the task has
+            # ENDED by now (a dead idle connection was handed out and the parameter sync / relay failed), the client is
+            # gone at this sample already — not only when its script later notices the closed socket
+            a = self.cand(c)
+            dead = self.idle_srv(a, dead=True) if a else []
+            ended = [x for x in self.new_tasks if x.startswith("err")]
+            if ended and len(dead) == 1:
+                srvfail = "receiving data from server" in ended[0] or "Statement timeout" in ended[0]
+                ops += ["CheckoutStart %d" % cid, "CandidateTry %d" % cid, "CheckoutOk %d %d" % (cid, dead[0]),
+                        "ExitErr %d %s" % (cid, "true" if srvfail else "false")]
+                if srvfail and a["replica"]:
+                    self.banned.add(a["id"])
+                drops.append(dead[0])
+                self.after_exit(c)
+                self.outcomes.append(("run_start", "dead-connection", "task ended"))
+            elif not self.new_tasks:
+                # no answer, no backend, task alive: blocked inside pool.get
+                self.k_req_start({"c": c}, ops, drops)
+                self.outcomes.append(("run_start", "waiting", "task alive"))
+            else:
+                self.notes.append("statement %s did not reach a backend and the task ended %s" % (entry["tag"], self.new_tasks))
             return
         ops += ["CheckoutStart %d" % cid, "CandidateTry %d" % cid, "CheckoutOk %d %d" % (cid, s)]
         self.held[c] = s
@@ -1436,12 +1482,12 @@ def judge_history(h, res, d, segs, truth, mval):
             tot = row[0] + row[1] + row[2]
             want = tr["connected"].get(pid, 0)
             if tot != want:
-                out["monitors"].append((i, "pool-sum", "pool %s: cl_idle+cl_active+cl_waiting = %d but %d clients are connected" % (db, tot, want)))
+                out["monitors"].append((i, "pool-sum" if tot < want else "pool-sum-over", "pool %s: cl_idle+cl_active+cl_waiting = %d but %d clients are connected" % (db, tot, want)))
             if row[1] != row[3]:
                 out["monitors"].append((i, "active-mismatch", "pool %s: cl_active %d but sv_active %d" % (db, row[1], row[3])))
         # number of rows of SHOW CLIENTS = connected clients (admin included)
         if len(im["adm"]["clients"]) != sum(tr["connected"].values()):
-            out["monitors"].append((i, "client-rows", "SHOW CLIENTS lists %d clients, %d are connected" % (len(im["adm"]["clients"]), sum(tr["connected"].values()))))
+            out["monitors"].append((i, "client-rows" if len(im["adm"]["clients"]) < sum(tr["connected"].values()) else "client-rows-over", "SHOW CLIENTS lists %d clients, %d are connected" % (len(im["adm"]["clients"]), sum(tr["connected"].values()))))
         # active <=> holds a server (harness: a client whose last ReadyForQuery said T/E, or a session-mode client that was served)
         act = sorted(r[0] for r in im["adm"]["clients"] if r[2] == "active")
         if act != tr["holders"]:
@@ -1637,7 +1683,7 @@ def report(run, hs, results, verdicts, proof_ok, log):
         if v["monitors"]:
             i, kind, text = v["monitors"][0]
             cls = None
-            if kind in ("pool-sum", "client-rows", "not-zero") and v["npanic"]:
+            if kind in ("pool-sum-over", "client-rows-over", "not-zero") and v["npanic"]:
                 e = h.plan[max([j for j in range(min(i, len(h.plan) - 1) + 1) if h.plan[j]["kind"] == "panic"] or [0])]
                 cls = "%s (recurrence of the repaired defect: a panicking client task keeps its row; bytes %s)" % (F_PANIC, e.get("hex"))
             elif kind == "waiting-state":
